@@ -1,8 +1,8 @@
 // SPDX-License-Identifier: BSL-1.1 OR Apache-2.0
 //! Delta encoding with variable-length integers for sorted ID sequences.
 
-/// Delta-encode a sorted list of IDs.
-/// Stores first value followed by differences between consecutive values.
+/// Delta-encode a list of IDs (compact when sorted, exact for any order).
+/// Stores first value followed by (wrapping) differences between consecutive values.
 #[must_use]
 pub fn delta_encode(ids: &[u64]) -> Vec<u64> {
     if ids.is_empty() {
@@ -13,7 +13,7 @@ pub fn delta_encode(ids: &[u64]) -> Vec<u64> {
     result.push(ids[0]);
 
     for window in ids.windows(2) {
-        result.push(window[1].saturating_sub(window[0]));
+        result.push(window[1].wrapping_sub(window[0]));
     }
 
     result
@@ -31,7 +31,7 @@ pub fn delta_decode(deltas: &[u64]) -> Vec<u64> {
     result.push(current);
 
     for &delta in &deltas[1..] {
-        current = current.saturating_add(delta);
+        current = current.wrapping_add(delta);
         result.push(current);
     }
 
